@@ -289,6 +289,9 @@ def _apply_one(img, cls, obj, field, kind, val, fixup):
         hdr = img.rd(base, 12); magic, ent, mx, depth = struct.unpack_from('<HHHH', hdr)
         if field % 5 == 0 or ent == 0:
             n, o, v = _field(img, base, EXT_HDR, val, kind, val)
+            # 'dec' on eh_max / 'inc' on eh_entries: make the two disagree by exactly one, whatever their distance was
+            if n == 'max' and KINDS[kind % len(KINDS)] == 'dec' and ent > 0: v = ent - 1; img.wr(base + 4, struct.pack('<H', v))
+            if n == 'entries' and KINDS[kind % len(KINDS)] == 'inc': v = mx + 1; img.wr(base + 2, struct.pack('<H', v & 0xffff))
             n = 'hdr.' + n
         else:
             e = (field // 5) % max(ent, 1); fl = EXT_LEAF if depth == 0 else EXT_IDX
